@@ -194,6 +194,24 @@ Definition collection_level_reject (c : c18case) : bool :=
   | _ => false
   end.
 
+(* the v1 API speaks to "the vamana index named vector": a v1 insert / update that is accepted although the
+   property `vector` of the collection is not a vamana index, or although a vector's length differs from the
+   dimension of the index the property really has (the parameter block that goes with its type) *)
+Definition v1_wrong_index (c : c18case) : bool :=
+  (k_ver c =? 1) &&
+  match k_ep c, k_body c with
+  | (EpInsert | EpUpdate), BPoints1 r =>
+      match lookup "vector" (cx_schema (k_ctx c)) with
+      | Some iv =>
+          match dim_of iv with
+          | Some d => negb (seq (iv_type iv) "vectorVamana") || negb (points1_fit d r)
+          | None => true
+          end
+      | None => true
+      end
+  | _, _ => false
+  end.
+
 (* ---- shapes of the confirmed defects *)
 Definition schema_pq_unbuildable (s : ischema) : bool :=
   existsb (fun kv => (seq (iv_type (snd kv)) "vectorFlat" && match iv_flat (snd kv) with Some p => pq_unbuildable p | None => false end)
@@ -248,7 +266,8 @@ Definition verdict (c : c18case) : N :=
         else 203%N
     | XCall op =>
         if is2xx (o_status o) then
-          (if N.eqb (doc_violation c) 0 then (if read_only op && o_changed o then 106%N else 0%N)
+          (if v1_wrong_index c then 119%N else
+           if N.eqb (doc_violation c) 0 then (if read_only op && o_changed o then 106%N else 0%N)
            else if N.eqb (doc_violation c) 21 then 121%N
            else if N.eqb (doc_violation c) 22 then 122%N
            else if N.eqb (doc_violation c) 23 then 123%N
